@@ -1,1 +1,30 @@
-fn main(){}
+mod c01;
+mod c03;
+mod c245;
+mod refstep;
+mod harness;
+mod oracle;
+mod problems;
+use vcore::Report;
+
+fn main() {
+    let id = std::env::args().nth(1).unwrap_or_default();
+    let id = if id == "replay" {
+        let f = std::env::args().nth(2).unwrap_or_default();
+        let v: serde_json::Value = serde_json::from_str(&std::fs::read_to_string(&f).unwrap_or_default()).unwrap_or_default();
+        v["property"].as_str().unwrap_or("").to_string()
+    } else {
+        id
+    };
+    match id.as_str() {
+        "C01" => c01::main(Report::from_args("model_checking")),
+        "C03" => c03::main(Report::from_args("model_checking")),
+        "C02" => c245::main_c02(Report::from_args("exploration")),
+        "C04" => c245::main_c04(Report::from_args("exploration")),
+        "C05" => c245::main_c05(Report::from_args("exploration")),
+        _ => {
+            eprintln!("MACHINERY: ivp serves C01..C06");
+            std::process::exit(2)
+        }
+    }
+}
